@@ -85,6 +85,11 @@ if [ -s "$R/unmodelled.txt" ]; then
   exit 2
 fi
 for o in "$R"/*.o; do objcopy --redefine-syms="$R/redefine.txt" "$o" || fail "objcopy"; done
+# library statics (.data/.bss of reproc's own objects) go into named sections so that the harness can reset them
+# before every plan: one plan is one pristine process image as far as the library can tell
+for o in "$R"/c_*.o "$R"/x_*.o; do
+  objcopy --rename-section .data=reproc_data --rename-section .bss=reproc_bss "$o" || fail "objcopy sections"
+done
 
 LIBS="-lpthread"
 $CXX $OPT $SAN $FWSAN -o "$R/simcheck" $FW_OBJS "$R"/*.o $LIBS || fail "link"
